@@ -93,7 +93,21 @@ func (e *Explorer) Explore(body func()) {
 			e.MaxChoices = len(r.Choices)
 		}
 		if len(r.Choices) < len(prefix) {
-			panic(fmt.Sprintf("vsched: NONDETERMINISM: execution made %d choices, shorter than replayed prefix %d", len(r.Choices), len(prefix)))
+			// The execution did not follow its prefix: state leaked from an earlier execution
+			// (e.g. a package-level variable of the code under test). If this execution failed,
+			// the failure is recorded before the enumeration is abandoned, so that the caller can
+			// still put it through its determinism guard and report it: a machinery error must
+			// never be the only trace of a failure that was seen.
+			e.Complete = false
+			failed := ""
+			if !r.Pruned && e.OnResult != nil {
+				if d := e.OnResult(r); d != "" {
+					p, dd := used(r.Choices)
+					e.Violations = append(e.Violations, Violation{Desc: d, Choices: ChoiceInts(r.Choices), P: p, D: dd})
+					failed = "; that execution failed: " + d
+				}
+			}
+			panic(fmt.Sprintf("vsched: NONDETERMINISM: execution made %d choices, shorter than replayed prefix %d%s", len(r.Choices), len(prefix), failed))
 		}
 		if r.Pruned {
 			e.PrunedExecs++
